@@ -12,12 +12,16 @@ run():       g, c := errgroup.WithContext(ctx)
   dispatcher: for ok && err == nil { ok, err = it.Next()
                  if ok { select { case in[write % n] <- item: case <-c.Done(): err = c.Err() }; write++ } }
               for i := range in { close(in[i]) }; return err
-  m.err = g.Wait(); for i := range out { close(out[i]) }
+  m.err = g.Wait()                                  -- step `store`: the field the consumer will read
+  for i := range out { close(out[i]) }              -- step `close`: only now can a consumer see a closed out[i]
 Next():      read++; if current, ok = <-out[read % n]; ok { return true, nil }; return false, m.err
 ```
+The ORDER of `store` and `close` matters: `Next()` reads `m.err` as soon as it sees its channel closed.  `step`
+has the order of the code (store, then close); `stepSwapped` is the protocol with the two statements exchanged
+(`err := g.Wait(); close all out; m.err = err`), kept to show what goes wrong (`Props/C25.lean`).
 Items are their indices `0 … N-1` (the value of item `k` is `f xs[k]`; `fails k` = `f` fails on it).  Lane `j` is
 `in[j]` → worker `j` → `out[j]`, each channel a one-slot buffer.  Leaving the dispatcher's loop and closing all
-`in` channels are two steps (`closing`); the closes themselves, `g.Wait()` + `m.err = …` + closing all `out`,
+`in` channels are two steps (`closing`); the closes of all `in`, `g.Wait()` + `m.err = …`, the closes of all `out`,
 and an errgroup `return err` are one step each.  Errors of the input iterator and cancellation of the caller's
 context are outside the model.
 -/
@@ -53,7 +57,9 @@ structure St where
   disp : D
   inClosed : Bool
   gerr : Option Nat              -- the group's error = the item whose failure was returned first; c is cancelled iff it is set
-  outClosed : Bool               -- g.Wait() has returned, m.err is set, every out[i] is closed
+  merr : Option Nat              -- the field m.err (nil until it is assigned)
+  stored : Bool                  -- `m.err = g.Wait()` has been executed
+  outClosed : Bool               -- every out[i] is closed
   read : Nat                     -- values the consumer has taken
   out : List Nat                 -- … in order
   fin : Option (Option Nat)      -- the consumer's last Next() returned (false, m.err)
@@ -61,7 +67,7 @@ deriving DecidableEq, Repr
 
 def init (c : Cfg) : St :=
   { lanes := List.replicate c.n { inq := none, wk := Wk.idle, outq := none }, write := 0, disp := D.running,
-    inClosed := false, gerr := none, outClosed := false, read := 0, out := [], fin := none }
+    inClosed := false, gerr := none, merr := none, stored := false, outClosed := false, read := 0, out := [], fin := none }
 
 def allExited (s : St) : Prop := ∀ l ∈ s.lanes, l.wk = Wk.exited
 instance (s : St) : Decidable (allExited s) := by unfold allExited; exact inferInstance
@@ -100,16 +106,38 @@ def consumerStep (c : Cfg) (s : St) : List St :=
   | some l =>
       (match l.outq with
         | some k => [{ s with lanes := s.lanes.set (s.read % c.n) { l with outq := none }, out := s.out ++ [k], read := s.read + 1 }]
-        | none => guard (s.outClosed = true) { s with fin := some s.gerr })
+        | none => guard (s.outClosed = true) { s with fin := some s.merr })
   | none => []
 
 def step (c : Cfg) (s : St) : List St :=
   if s.fin.isSome then [] else
     dispStep c s
-    ++ guard (s.disp = D.exited ∧ allExited s ∧ s.outClosed = false) { s with outClosed := true }
+    ++ guard (s.disp = D.exited ∧ allExited s ∧ s.stored = false) { s with merr := s.gerr, stored := true }   -- m.err = g.Wait()
+    ++ guard (s.stored = true ∧ s.outClosed = false) { s with outClosed := true }                               -- close every out[i]
     ++ consumerStep c s
     ++ forWorkers s.lanes (workerStep c s)
 
 def terminal (s : St) : Bool := s.fin.isSome
+
+/-- the steps of one lane's worker together with everybody else's: `t ∈ stepsAt c s j → t ∈ step c s`
+(`Lemmas/ProtoMapParallel.lean`); what the driver uses so that a replay costs O(lanes) per step -/
+def stepsAt (c : Cfg) (s : St) (j : Nat) : List St :=
+  if s.fin.isSome then [] else
+    dispStep c s
+    ++ guard (s.disp = D.exited ∧ allExited s ∧ s.stored = false) { s with merr := s.gerr, stored := true }
+    ++ guard (s.stored = true ∧ s.outClosed = false) { s with outClosed := true }
+    ++ consumerStep c s
+    ++ (match s.lanes[j]? with
+        | some l => workerStep c s j l
+        | none => [])
+
+/-- the protocol with `m.err = …` moved after the closes: `err := g.Wait(); close every out[i]; m.err = err` -/
+def stepSwapped (c : Cfg) (s : St) : List St :=
+  if s.fin.isSome then [] else
+    dispStep c s
+    ++ guard (s.disp = D.exited ∧ allExited s ∧ s.outClosed = false) { s with outClosed := true }               -- close every out[i]
+    ++ guard (s.outClosed = true ∧ s.stored = false) { s with merr := s.gerr, stored := true }                   -- m.err = err
+    ++ consumerStep c s
+    ++ forWorkers s.lanes (workerStep c s)
 
 end B6.Model.Proto.MapParallel
